@@ -255,6 +255,25 @@ def oracle(case, r):
                 break
         elif o[0] == "GET":
             occ -= 1
+    # uniform stalls on a non-accumulating continuous belt: when time passes, either every item on the belt is
+    # stopped or none is (the shape of history C12_fifo_under_uniform_stalls is about)
+    if case["kind"] == "cont" and not acc:
+        stopped, onbelt, clock = set(), [], 0
+        for o in r["ops"]:
+            if o[0] == "IDLE":
+                if stopped and any(x not in stopped for x in onbelt):
+                    V.append(("C13", "nonacc-partial-stall", "non-accumulating: at %s items %s were stopped while items %s kept moving" %
+                              (clock / TICK, sorted(stopped), [x for x in onbelt if x not in stopped])))
+                    break
+                clock += o[1]
+            elif o[0] == "PUT":
+                onbelt.append(o[1])
+            elif o[0] == "INT":
+                stopped.add(o[1])
+            elif o[0] == "RESUME":
+                stopped.clear()
+            elif o[0] == "READY":
+                onbelt.remove(o[1]); stopped.discard(o[1])
     stalls = [(items[i]["ready"], items[i].get("out", float("inf"))) for i in ids if "ready" in items[i] and items[i].get("out", float("inf")) > items[i]["ready"]]
 
     def stalled(a, b):
